@@ -16,6 +16,7 @@ mod framing;
 mod io;
 mod md5;
 mod order;
+mod pid;
 mod term_json;
 
 #[global_allocator]
@@ -42,6 +43,7 @@ fn main() {
         "md5" => md5::run_selftest(rest),
         "hs-edges" => handshake::run_edges(rest),
         "hs-wire" => handshake::run_wire(rest),
+        "pid-run" => pid::run(rest),
         other => {
             eprintln!("unknown subcommand {other}");
             2
